@@ -71,9 +71,16 @@ Section CleanOp.
 
   Let R := Image s (DClean ttl) Kc.
 
+  (* the epoch cache Clean leaves (the in-memory model's answer) *)
+  Definition clean_cache : epoch_cache :=
+    match p_compact p, s3 with
+    | true, _ :: _ :: _ => cache_assign_all [] (concat (map s_recs (compact_segs key_of false hw s3)))
+    | _, _ => cache_clear_earliest c0 (match s3 with [] => 0 | sg :: _ => s_base sg end)
+    end.
+
   Definition clean_final (d : disk) : Prop :=
     exists segs c, meq d (cmk s segs [] c) /\ segs <> [] /\ (forall m, In m segs -> m_idx m = Some (m_recs m)) /\
-      cbound c (m_next (last segs dummy_m)) /\ R (cmk s segs [] c).
+      cbound c (m_next (last segs dummy_m)) /\ R (cmk s segs [] c) /\ map m_seg segs = clean_target /\ c = clean_cache.
 
   Lemma start_at d : at_ d0 d -> at_ (cmk s (d_segs d0) [] c0) d.
   Proof. intros Hd. eapply meq_trans; [exact Hd|]. repeat split. apply (g_orph _ G). Qed.
@@ -167,7 +174,8 @@ Section CleanOp.
       change [FPoint PCleanCleaned; FEpochs cN] with ([FPoint PCleanCleaned] ++ [FEpochs cN]).
       apply (seq_app R _ _ (at_ (cmk s (fin ++ [lastm]) [] c0))); [apply seq_point_at; [apply cimage_main|exact RfinC0]|].
       eapply seq_conseq; [intros d Hd; exact Hd| |apply (seq_main R _ (MEpochs cN) _ (cmk s (fin ++ [lastm]) [] cN)); [apply cimage_main|reflexivity|apply meq_refl|exact RfinC0|exact RfinCN]].
-      intros d Hd. exists (fin ++ [lastm]), cN. split; [exact Hd|]. split; [destruct fin; discriminate|]. split; [|split; [|exact RfinCN]].
+      intros d Hd. exists (fin ++ [lastm]), cN. split; [exact Hd|]. split; [destruct fin; discriminate|]. split; [|split; [|split; [exact RfinCN|split; [exact Hfinsegs|]]]].
+      3:{ unfold clean_cache, cN. rewrite Ecomp. destruct Htwo as (q1 & q2 & qt & Eq). rewrite Hs3, Eq. rewrite <- Eq. reflexivity. }
       + intros m Hm. apply in_app_or in Hm. destruct Hm as [Hm|[<-|[]]]; [|apply Hidx3; apply in_or_app; right; left; reflexivity].
         unfold fin, done_of in Hm. apply in_map_iff in Hm. destruct Hm as (m0 & <- & _). reflexivity.
       + rewrite last_last. replace (m_next lastm) with (next_of s) by (rewrite <- Hnext3, last_last; reflexivity).
@@ -196,7 +204,9 @@ Section CleanOp.
       apply (seq_app R _ _ (at_ (cmk s rest3 [] c0))); [exact Hseq|].
       apply (seq_app R _ _ (at_ (cmk s rest3 [] c0))); [apply seq_point_at; [apply cimage_main|exact Rr]|].
       eapply seq_conseq; [intros d Hd; exact Hd| |apply (seq_main R _ (MEpochs cE) _ (cmk s rest3 [] cE)); [apply cimage_main|reflexivity|apply meq_refl|exact Rr|exact RE]].
-      intros d Hd. exists rest3, cE. split; [exact Hd|]. split; [exact Hne3|]. split; [exact Hidx3|]. split; [|exact RE].
+      intros d Hd. exists rest3, cE. split; [exact Hd|]. split; [exact Hne3|]. split; [exact Hidx3|]. split; [|split; [exact RE|split]].
+      2:{ rewrite M3. unfold clean_target. destruct (p_compact p); [|reflexivity]. destruct s3 as [|a [|b t]]; try reflexivity. destruct Hplain. }
+      2:{ unfold clean_cache, cE, fb, c0. destruct (p_compact p); [|reflexivity]. destruct s3 as [|a [|b t]]; try reflexivity. destruct Hplain. }
       rewrite Hnext3. apply clear_earliest_bound; [apply (g_csorted _ G)|apply (g_cbound _ G)|].
       unfold fb. rewrite <- M3. destruct rest3 as [|m0 rt]; [contradiction|]. cbn [map]. apply (base_le_next m0). apply (subseq_incl _ _ Hsub3). left. reflexivity.
   Qed.
